@@ -123,7 +123,7 @@ namespace sqf
             std::string_view varname() const { return m_varname; }
             void varname(std::string str) { m_varname = str; }
 
-            std::shared_ptr<d_group> group() const { return m_group; }
+            std::shared_ptr<d_group> group() const;
             void group(std::shared_ptr<d_group> g) { m_group = g; }
 
             float damage() const { return m_damage; }
@@ -136,13 +136,13 @@ namespace sqf
             /// <returns></returns>
             std::shared_ptr<d_object> parent_object() const { return m_parent_object; }
 
-            std::shared_ptr<d_object> driver() const { return m_driver; }
+            std::shared_ptr<d_object> driver() const;
             void driver(std::shared_ptr<d_object> val);
 
-            std::shared_ptr<d_object> gunner() const { return m_gunner; }
+            std::shared_ptr<d_object> gunner() const;
             void gunner(std::shared_ptr<d_object> val);
 
-            std::shared_ptr<d_object> commander() const { return m_commander; }
+            std::shared_ptr<d_object> commander() const;
             void commander(std::shared_ptr<d_object> val);
 
             soldiers_ soldiers() { return m_soldiers; }
